@@ -74,9 +74,10 @@ def rec_with(t, **kw):
 
 
 class Evaluator:
-    def __init__(self, P, max_depth=6, unknown_attr_raises=False):
+    def __init__(self, P, max_depth=6, stubs=None):
         self.P = P
         self.max_depth = max_depth
+        self.stubs = stubs or {}          # "self.method" / "function" -> callable(args, kws) -> term
 
     # {{{ driver
 
@@ -387,11 +388,14 @@ class Evaluator:
                 return rec_with(b, **kws)
             if b[0] == "none":
                 raise _Raise("AttributeError", facts)
+            if isinstance(fn.value, ast.Name) and f"{fn.value.id}.{fn.attr}" in self.stubs:
+                return self.stubs[f"{fn.value.id}.{fn.attr}"](args, kws)
             # a method of the same class of the repository (self.helper(...))
             if isinstance(fn.value, ast.Name) and fn.value.id == "self" and func.cls is not None:
                 m = self.P.method(func.cls, fn.attr)
                 if m is not None and not m.module.trusted and depth < self.max_depth:
-                    return self._inline(m, [b] + args, kws, facts, depth)
+                    static = any(dotted(d_) == "staticmethod" for d_ in m.node.decorator_list)
+                    return self._inline(m, args if static else [b] + args, kws, facts, depth)
             return ("call", ("attr", b, fn.attr), tuple(args), tuple(sorted(kws.items())))
         f_t = self.ev(fn, env, facts, func, depth)
         args = []
@@ -414,6 +418,8 @@ class Evaluator:
             return ("const", len(args[0][1]))
         if name == "enumerate" and len(args) == 1 and args[0][0] == "tuple":
             return ("tuple", tuple(("tuple", (("const", i), x)) for i, x in enumerate(args[0][1])))
+        if name in self.stubs:
+            return self.stubs[name](args, kws)
         # a function of the repository: follow it
         callee = None
         if f_t[0] == "fn" and func is not None:
